@@ -735,8 +735,10 @@ def flatten_path(path, flatten_slashes=False):
         elif new_parts:
             new_parts.pop()
 
-    # If the filename is empty string
-    if flatten_slashes and path.endswith('/') or not len(new_parts):
+    # If the filename is empty string or the path ends with a dot segment
+    # (RFC 3986 5.2.4: "/a/." and "/a/b/.." are "/a/")
+    if flatten_slashes and path.endswith('/') or not len(new_parts) \
+            or parts[-1] in ('.', '..'):
         new_parts.append('')
 
     # Put back leading slash
